@@ -46,7 +46,7 @@ Qed.
 
 (* a rejected operation changes nothing observable *)
 Lemma rejected_noop sch ixs s o s' e :
-  wf_indexes sch ixs -> reachable sch ixs s -> step true sch s o = (s', RErr e) ->
+  wf_indexes sch ixs -> reachable sch ixs s -> step true true sch s o = (s', RErr e) ->
   st_docs s' = st_docs s /\ map fst (st_ix s') = map fst (st_ix s) /\
   (forall i k id, In id (lookup s' i k) <-> In id (lookup s i k)) /\
   (e <> EStorage -> st_poison s' = st_poison s).
@@ -65,7 +65,7 @@ Proof.
     destruct (add sch s fs ft) as [s1 r1] eqn:E. destruct (add_correct _ _ _ _ _ _ I E) as [_ Y].
     destruct r1; intros H; inversion H; subst. rewrite ?P in Y. apply X; tauto.
   - destruct (st_poison s) eqn:P; [intros H; inversion H; subst; apply SAME; auto|].
-    destruct (update true sch s id fs ft) as [s1 r1] eqn:E. destruct (update_correct _ _ _ _ _ _ _ I E) as [_ Y].
+    destruct (update true true sch s id fs ft) as [s1 r1] eqn:E. destruct (update_correct _ _ _ _ _ _ _ I E) as [_ Y].
     destruct r1; intros H; inversion H; subst. rewrite ?P in Y. apply X; tauto.
   - destruct (st_poison s) eqn:P; [intros H; inversion H; subst; apply SAME; auto|].
     destruct (remove s id ft) as [s1 r1] eqn:E. destruct (remove_correct _ _ _ _ _ _ I E) as [_ Y].
@@ -77,7 +77,7 @@ Qed.
 (* after the holder is removed, each of its unique keys has no owner *)
 Lemma value_released_remove sch ixs s id s' i ix p' k d :
   wf_indexes sch ixs -> reachable sch ixs s ->
-  step true sch s (ORemove id NoFault) = (s', RRemoved true) ->
+  step true true sch s (ORemove id NoFault) = (s', RRemoved true) ->
   get_doc (st_docs s) id = Some d ->
   nth_error (st_ix s') i = Some (ix, p') -> ix_unique ix = true -> In k (dkeys ix d) ->
   lookup s' i k = [].
@@ -98,7 +98,7 @@ Proof. intros HR F. induction F as [|x y la lb Rxy _ IH]; simpl; auto. rewrite I
 (* after the holder's update, the unique keys it gave up have no owner *)
 Lemma value_released_update sch ixs s id fs s' i ix p' k od nd a :
   wf_indexes sch ixs -> reachable sch ixs s ->
-  step true sch s (OUpdate id fs NoFault) = (s', ROk) ->
+  step true true sch s (OUpdate id fs NoFault) = (s', ROk) ->
   get_doc (st_docs s) id = Some od -> get_doc (st_docs s') id = Some nd ->
   nth_error (st_ix s') i = Some (ix, p') -> ix_unique ix = true ->
   In k (dkeys ix od) -> ~ In k (dkeys ix nd) ->
@@ -107,7 +107,7 @@ Proof.
   intros W R S Go Gn N U Ko Kn Ha. pose proof (reachable_Inv _ _ _ W R) as I.
   pose proof (step_Inv _ _ _ _ _ I S) as I'. unfold step in S.
   destruct (st_poison s); [discriminate|].
-  destruct (update true sch s id fs NoFault) as [s1 r1] eqn:E. destruct (update_correct _ _ _ _ _ _ _ I E) as [_ Y].
+  destruct (update true true sch s id fs NoFault) as [s1 r1] eqn:E. destruct (update_correct _ _ _ _ _ _ _ I E) as [_ Y].
   destruct r1; inversion S; subst. destruct Y as (_ & od' & nd' & G1 & SF & D).
   pose proof (lookup_ok _ _ _ _ _ I' N) as [C' _].
   unfold lookup in Ha. rewrite N in Ha. apply C' in Ha. destruct Ha as (da & Ga & Ka).
@@ -121,7 +121,7 @@ Proof.
   { unfold update in E. rewrite Go in E. destruct fs as [|f0 fr]; [inversion E|]. remember (f0 :: fr) as fs0.
     destruct (set_fields sch od fs0) as [ndx|] eqn:SF2; [|inversion E].
     destruct (validate sch ndx) eqn:V; [|inversion E]. cbn [negb] in E.
-    destruct (upd_loop true id (map fst fs0) od ndx (st_ix s)) as [l ok] eqn:UL.
+    destruct (upd_loop true true id (map fst fs0) od ndx (st_ix s)) as [l ok] eqn:UL.
     pose proof (Inv_upd_pre _ _ _ _ _ I Go V) as PRE.
     destruct (upd_loop_spec _ _ _ _ _ SF2 _ _ _ PRE UL) as (_ & R2 & _).
     destruct ok; cbn [negb] in E.
@@ -141,7 +141,7 @@ Lemma free_value_insertable sch ixs s fs d :
   wf_indexes sch ixs -> reachable sch ixs s -> st_poison s = false ->
   set_fields sch empty_doc fs = inl d -> validate sch d = true ->
   (forall i ix p k, nth_error (st_ix s) i = Some (ix, p) -> ix_unique ix = true -> In k (dkeys ix d) -> lookup s i k = []) ->
-  exists s', step true sch s (OAdd fs NoFault) = (s', RId (st_next s + 1)).
+  exists s', step true true sch s (OAdd fs NoFault) = (s', RId (st_next s + 1)).
 Proof.
   intros W R P SF V F. pose proof (reachable_Inv _ _ _ W R) as I.
   destruct (add_accepts_free sch s fs d I SF V) as [s' E].
